@@ -54,10 +54,58 @@ pub struct Outcome {
     pub driver: String,
 }
 
+/// executions in flight per worker thread: (start, scenario, path) — read by the watchdog
+pub static INFLIGHT: Mutex<Vec<(std::thread::ThreadId, std::time::Instant, Arc<Scenario>, Vec<Action>)>> = Mutex::new(Vec::new());
+
+struct InflightGuard;
+impl InflightGuard {
+    fn new(scn: &Arc<Scenario>, path: &[Action]) -> InflightGuard {
+        let id = std::thread::current().id();
+        let mut g = INFLIGHT.lock().unwrap();
+        g.retain(|e| e.0 != id);
+        g.push((id, std::time::Instant::now(), scn.clone(), path.to_vec()));
+        InflightGuard
+    }
+}
+impl Drop for InflightGuard {
+    fn drop(&mut self) {
+        let id = std::thread::current().id();
+        INFLIGHT.lock().unwrap().retain(|e| e.0 != id);
+    }
+}
+
+/// A single poll of the real code that does not return within `limit` is a livelock: report it
+/// as a violation (the stuck thread cannot be interrupted, so the process exits from here).
+pub fn spawn_watchdog(rep: Arc<Reporter>, limit: std::time::Duration) {
+    std::thread::spawn(move || loop {
+        std::thread::sleep(std::time::Duration::from_millis(500));
+        let stuck = INFLIGHT.lock().unwrap().iter().find(|e| e.1.elapsed() > limit).map(|e| (e.2.clone(), e.3.clone()));
+        if let Some((scn, path)) = stuck {
+            let replay = json!({"engine": "e1", "scenario": &*scn, "path": path});
+            rep.violation(
+                "term:livelock-in-poll",
+                &format!("[{}] a poll of the real code did not return within {:?} after history {:?} (busy loop)", scn.name, limit, path),
+                replay,
+            );
+            let c = crate::common::cov(vec![
+                ("states", json!(1)),
+                ("transitions", json!(1)),
+                ("traces_validated_against_impl", json!(1)),
+                ("samples", json!([{"stuck_path": path}])),
+                ("exhaustive", json!(false)),
+                ("explanation", json!("exploration aborted by the livelock watchdog")),
+            ]);
+            let code = rep.finish("model_checking", c, vec![]);
+            std::process::exit(code);
+        }
+    });
+}
+
 /// Execute `path` on a fresh real connection. `check_prefix`: also compute the digest after
 /// path[..len-1] (used to detect nondeterminism of re-execution).
 pub fn run_path(scn: &Arc<Scenario>, path: &[Action], check_prefix: bool) -> Outcome {
     super::world::install_rng_hook();
+    let _guard = InflightGuard::new(scn, path);
     let rt = tokio::runtime::Builder::new_current_thread().enable_time().start_paused(true).build().unwrap();
     let out = rt.block_on(async {
         let mut w = World::new(scn.clone());
